@@ -25,12 +25,12 @@ WATCHDOG = {"quick": 900, "thorough": 3000}
 
 def cases(ctx):
     pol = sched.Scheduler.POLICIES
-    for i in range(ctx.pick(48, 640)):
+    for i in range(ctx.pick(96, 9600)):
         yield "gated", {"seed": ctx.subseed("g", i), "policy": pol[i % len(pol)], "store": ["dummy", "sqlite", "sqlite"][i % 3],
                         "gates": ["obj", "obj+sync", "obj+sync+sql", "sync+sql"][(i // 3) % 4]}
-    for i in range(ctx.pick(12, 220)):
+    for i in range(ctx.pick(24, 3300)):
         yield "lines", {"seed": ctx.subseed("l", i), "store": ["dummy", "sqlite"][i % 2]}
-    for i in range(ctx.pick(6, 64)):
+    for i in range(ctx.pick(12, 960)):
         yield "nsga2", {"seed": ctx.subseed("n", i), "policy": pol[i % len(pol)]}
 
 
